@@ -41,13 +41,21 @@ fn scan(ctx: &Ctx, ka: &mut KeepAlive, size: u32, limit: Option<u64>, sort: Sort
 /// `interfere`: requests whose token cannot be issued are sent between the pages of the scan.
 #[allow(clippy::too_many_arguments)]
 fn scan_with(ctx: &Ctx, ka: &mut KeepAlive, size: u32, limit: Option<u64>, sort: Sort, interfere: bool, cn: &Cn, samples: &Samples) {
+    scan_full(ctx, ka, size, limit, sort, interfere, 0, cn, samples)
+}
+
+/// `pad` > 0: item names padded so that the page tokens are right around the 512-character bound; a
+/// page for which no token can be issued is answered 500 by design, and such a scan is not judged.
+#[allow(clippy::too_many_arguments)]
+fn scan_full(ctx: &Ctx, ka: &mut KeepAlive, size: u32, limit: Option<u64>, sort: Sort, interfere: bool, pad: u32, cn: &Cn, samples: &Samples) {
     cn.scans.fetch_add(1, Ordering::Relaxed);
-    let want: Vec<Item> = paging::collection(size, sort, false);
+    let want: Vec<Item> = if pad > 0 { paging::collection_padded(size, sort, pad) } else { paging::collection(size, sort, false) };
     let eff = limit.unwrap_or(100).min(10_000) as usize;
     let bound = (size as usize).div_ceil(eff) + 1;
-    let case = json!({"kind":"scan","size": size, "limit": limit, "sort": sort_name(sort), "failing_token_requests_between_pages": interfere});
+    let case = json!({"kind":"scan","size": size, "limit": limit, "sort": sort_name(sort), "failing_token_requests_between_pages": interfere, "pad": pad});
     let lim = limit.map(|l| format!("&limit={l}")).unwrap_or_default();
-    let mut url = format!("/items?size={size}&sort={}{lim}", sort_name(sort));
+    let padq = if pad > 0 { format!("&pad={pad}") } else { String::new() };
+    let mut url = format!("/items?size={size}&sort={}{lim}{padq}", sort_name(sort));
     let mut got: Vec<Item> = vec![];
     let mut nreq = 0usize;
     let mut pages: Vec<usize> = vec![];
@@ -71,6 +79,11 @@ fn scan_with(ctx: &Ctx, ka: &mut KeepAlive, size: u32, limit: Option<u64>, sort:
             ctx.report(Violation { sig: json!({"kind":"scan_no_response"}), case, expected: json!("a page"), observed: json!(format!("{r:?}")) });
             return;
         };
+        if pad > 0 && resp.status == 500 {
+            // no token can be issued for this page (selector too large): by design, not judged
+            cn.poison.fetch_add(1, Ordering::Relaxed);
+            return;
+        }
         if resp.status != 200 {
             ctx.report(Violation {
                 sig: json!({"kind":"scan_request_failed","status": resp.status}),
@@ -148,8 +161,8 @@ fn main() {
             let srv = LiveServer::start(paging::api(), (), ServerOpts { rt: RtKind::CurrentThread, ..Default::default() }).unwrap_or_else(|e| machinery_failure(&e));
             let mut ka = KeepAlive::new(srv.addr);
             poison(&mut ka, &cn);
-            scan_with(ctx, &mut ka, case["size"].as_u64().unwrap() as u32, case["limit"].as_u64(), sort_from(case["sort"].as_str().unwrap_or("")),
-                case["failing_token_requests_between_pages"].as_bool().unwrap_or(false), &cn, &Samples::new(0));
+            scan_full(ctx, &mut ka, case["size"].as_u64().unwrap() as u32, case["limit"].as_u64(), sort_from(case["sort"].as_str().unwrap_or("")),
+                case["failing_token_requests_between_pages"].as_bool().unwrap_or(false), case["pad"].as_u64().unwrap_or(0) as u32, &cn, &Samples::new(0));
         });
     }
     let ctx = Ctx::new(&args, level, "E2-live");
@@ -206,6 +219,18 @@ fn main() {
                 done.fetch_add(1, Ordering::Relaxed);
             }
         });
+        // tokens right around the 512-character bound: names padded to 250..=330 bytes, 14 items, limits 1..3
+        {
+            let pads: Vec<u32> = (250..=330).collect();
+            par_for(pads.len(), nconn, 0, |pi| {
+                let mut ka = KeepAlive::new(srv.addr);
+                for sort in sorts {
+                    for limit in [1u64, 2, 3] {
+                        scan_full(&ctx, &mut ka, 14, Some(limit), sort, false, pads[pi], &cn, &samples);
+                    }
+                }
+            });
+        }
         if (done.load(Ordering::Relaxed) as usize) < work.len() {
             caps.push(format!("runtime {rt:?}: wall budget hit after {} of {} (size,limit) pairs", done.load(Ordering::Relaxed), work.len()));
         }
@@ -213,7 +238,7 @@ fn main() {
     let cov = json!({
         "evaluations": cn.requests.load(Ordering::Relaxed),
         "distinct_nontrivial": cn.multi_page.load(Ordering::Relaxed),
-        "rule": "every (size, limit) with size in 0..=full_upto and limit in {absent} U 1..=size+2, a sparse limit set for larger sizes, and the clamp sizes around 10000, x 3 sort orders, on a current_thread and a multi_thread server; each triple is one deterministic scan history driven over TCP by following next_page tokens; between scans, requests whose token cannot be issued (500 by design) are interleaved. Oracle: concatenated pages == the collection in order, each page <= min(limit or 100, 10000), token present iff page non-empty, requests <= ceil(size/eff)+1. evaluations = page requests; distinct_nontrivial = scans with at least two non-empty pages.",
+        "rule": "every (size, limit) with size in 0..=full_upto and limit in {absent} U 1..=size+2, a sparse limit set for larger sizes, and the clamp sizes around 10000, x 3 sort orders, on a current_thread and a multi_thread server; each triple is one deterministic scan history driven over TCP by following next_page tokens; between scans, requests whose token cannot be issued (500 by design) are interleaved; plus scans over names padded to 250..=330 bytes (tokens right around the 512-character bound; a page whose token cannot be issued ends that scan unjudged). Oracle: concatenated pages == the collection in order, each page <= min(limit or 100, 10000), token present iff page non-empty, requests <= ceil(size/eff)+1. evaluations = page requests; distinct_nontrivial = scans with at least two non-empty pages.",
         "scans": cn.scans.load(Ordering::Relaxed), "size_limit_pairs": work.len(), "full_product_up_to_size": full_upto,
         "poison_requests": cn.poison.load(Ordering::Relaxed),
         "caps_hit": caps, "exhaustive": caps.is_empty(),
